@@ -47,6 +47,7 @@ def generate(rng, tier, index):
         "listing_seed": rng.randrange(1 << 20),
         "command_dim_default": rng.random() < 0.5,
     }
+    sc["eps"] = rng.choice([None, None, None, 1e-5, 0.5, 2.0])  # the floor under the std in y = (x - mean) / max(std, eps)
     return sc
 
 
@@ -125,7 +126,8 @@ def execute(sc):
                 delivered.append(order.pop(tape.choose(len(order))))
             pool = pooled(tensors, dim)
             count = pool.shape[0]
-            mvn = MeanVarianceNormalization(dim)
+            eps = sc.get("eps")
+            mvn = MeanVarianceNormalization(dim) if eps is None else MeanVarianceNormalization(dim, eps=eps)
             seen = []
             for j, ci in enumerate(delivered):
                 mvn.accumulate(chunks[ci])
@@ -184,9 +186,13 @@ def execute(sc):
                 ys = [mvn(t) for t in tensors]
                 yp = pooled(ys, dim)
                 tol = 1e-5 if sc["dtype"] == "float64" else 5e-3
-                if np.abs(yp.mean(0)).max() > tol or np.abs(yp.var(0) - 1).max() > 10 * tol:
-                    res.violate("normalise.pooled", f"normalised pooled data has mean {yp.mean(0).tolist()} var {yp.var(0).tolist()}", dtype=sc["dtype"])
+                # documented: y = (x - mean) / max(std, eps): unit variance where the std is above the floor
+                want_var = (want_std / np.maximum(want_std, eps)) ** 2 if eps is not None else np.ones_like(want_std)
+                if np.abs(yp.mean(0)).max() > tol or np.abs(yp.var(0) - want_var).max() > 10 * tol:
+                    res.violate("normalise.pooled", f"normalised pooled data has mean {yp.mean(0).tolist()} var {yp.var(0).tolist()}, documented variance {want_var.tolist()} (eps={eps})", dtype=sc["dtype"])
                     return res
+                if eps is not None and (want_std < eps).any():
+                    res.bump("probe.std_below_eps_floor")
                 for y, t in zip(ys, tensors):
                     if y.shape != t.shape or y.dtype != t.dtype:
                         res.violate("normalise.shape", "normalised tensor changed shape or dtype")
